@@ -82,6 +82,12 @@ func (tr *vpTrace) Emit(v any) {
 	tr.mu.Unlock()
 }
 
+func (tr *vpTrace) Flush() {
+	tr.mu.Lock()
+	tr.w.Flush()
+	tr.mu.Unlock()
+}
+
 func (tr *vpTrace) Close() {
 	tr.w.Flush()
 	tr.f.Close()
@@ -234,22 +240,22 @@ type simMsg struct {
 }
 
 type simPeer struct {
-	ss      *simServer
-	name    string
-	addr    netip.Addr
-	as      uint32
-	rid     netip.Addr
-	mu      sync.Mutex
-	conn    *fakeConn
-	opts    []*bgp.MarshallingOption // how to parse what we are sent
-	sopts   []*bgp.MarshallingOption // how to serialise what we send
-	log     []simMsg
-	gate    chan struct{} // reader takes one token per message while stalled
-	stalled bool
-	eof     bool
-	eofAt   float64
+	ss         *simServer
+	name       string
+	addr       netip.Addr
+	as         uint32
+	rid        netip.Addr
+	mu         sync.Mutex
+	conn       *fakeConn
+	opts       []*bgp.MarshallingOption // how to parse what we are sent
+	sopts      []*bgp.MarshallingOption // how to serialise what we send
+	log        []simMsg
+	gate       chan struct{} // reader takes one token per message while stalled
+	stalled    bool
+	eof        bool
+	eofAt      float64
 	readerDone chan struct{}
-	session int
+	session    int
 }
 
 func newSimPeer(ss *simServer, name string, addr string, as uint32, rid string) *simPeer {
